@@ -106,7 +106,7 @@ pub fn gen_fam(rng: &mut Rng, stats: &mut Stats, idx: usize) -> Fam {
         let cnt = if rng.chance(3) { stats.hit("count:above-2^53"); (1u64 << 53) + 1 } else { rng.below(50) as u64 };
         let val = if rng.chance(4) { stats.hit("slot:mismatch"); Val::None } else { match ty {
             "counter" => Val::C(*rng.pick(&fp)), "gauge" => Val::G(*rng.pick(&fp)), "untyped" => Val::None,
-            "histogram" => { let nb = rng.below(5); let mut b: Vec<(f64, u64)> = (0..nb).map(|i| (*rng.pick(&[0.005, 0.1, 1.0, 2.5, 10.0, -1.0, 1e9]), (i as u64 + 1) * 2)).collect(); if rng.chance(25) { b.push((f64::INFINITY, cnt)); } Val::H(cnt, *rng.pick(&fp), b) }
+            "histogram" => { let nb = rng.below(5); let mut b: Vec<(f64, u64)> = (0..nb).map(|i| (*rng.pick(&[0.005, 0.1, 1.0, 2.5, 10.0, -1.0, 1e9, f64::NEG_INFINITY]), (i as u64 + 1) * 2)).collect(); if rng.chance(25) { b.push((f64::INFINITY, cnt)); } Val::H(cnt, *rng.pick(&fp), b) }
             _ => { let nq = rng.below(4); Val::S(cnt, *rng.pick(&fp), (0..nq).map(|_| (*rng.pick(&[0.5, 0.9, 0.99]), *rng.pick(&fp))).collect()) } } };
         Smp { labels, val, ts: *rng.pick(&[0, 0, 0, 1234567890123, -5]) } }).collect();
     Fam { name, help, ty: ty.to_string(), samples }
